@@ -246,13 +246,17 @@ func (s *Sandbox) manifestJSON(ls *lua.LState) int {
 func (s *Sandbox) manifestPut(ls *lua.LState) int {
 	sbm := s.checkManifest(ls, 1, true, false)
 	r := s.checkReference(ls, 2)
-	s.log.Debug("Put manifest",
+	s.log.Info("Put manifest",
 		slog.String("script", s.name),
-		slog.String("image", r.r.CommonName()))
+		slog.String("image", r.r.CommonName()),
+		slog.Bool("dry-run", s.dryRun))
 
 	m, err := manifest.New(manifest.WithOrig(sbm.m.GetOrig()))
 	if err != nil {
 		ls.RaiseError("Failed to put manifest: %v", err)
+	}
+	if s.dryRun {
+		return 0
 	}
 
 	err = s.rc.ManifestPut(s.ctx, r.r, m)
